@@ -334,15 +334,15 @@ theorem C13_any_error_rolls_back (atom : String → Bool) (e : ErrV)
     which `errors.Is`-matches exactly what e matches and still carries e -/
 theorem C13_addError_keeps (atom : String → Bool) (cur : Option ErrV) (e : ErrV)
     (htr : atom "db.Config.TranslateError" = false) :
-    ∃ r, addError atom cur e = some r ∧ r.carries e = true ∧ (∀ s, r.is s = e.is s) ∧ (cur = none → r = e) := by
+    ∃ r, hookAddError atom cur e = some r ∧ r.carries e = true ∧ (∀ s, r.is s = e.is s) ∧ (cur = none → r = e) := by
   cases cur with
   | none =>
     refine ⟨e, ?_, ?_, fun _ => rfl, fun _ => rfl⟩
-    · simp [addError, addErrorWith, callsUnder, addErrorWrites, evalH, errEnv, htr]
+    · simp [hookAddError, hookAddErrorWith, callsUnder, addErrorWrites, evalH, errEnv, htr]
     · cases e <;> simp [ErrV.carries]
   | some c =>
     refine ⟨.chain c e, ?_, ?_, fun _ => by simp [ErrV.is], fun h => by simp at h⟩
-    · simp [addError, addErrorWith, callsUnder, addErrorWrites, evalH, errEnv, htr]
+    · simp [hookAddError, hookAddErrorWith, callsUnder, addErrorWrites, evalH, errEnv, htr]
     · cases e <;> simp [ErrV.carries]
 
 /-- MAIN (hook error ⇒ rollback): a hook returns e (`db.AddError(i.H(tx))`, C13_hooks_only_via_callMethod) with any
@@ -351,7 +351,7 @@ theorem C13_addError_keeps (atom : String → Bool) (cur : Option ErrV) (e : Err
 theorem C13_hook_error_rolls_back (atom : String → Bool) (cur : Option ErrV) (e : ErrV)
     (htr : atom "db.Config.TranslateError" = false)
     (hskip : atom "db.Config.SkipDefaultTransaction" = false) (hstarted : atom "ok" = true) :
-    ∃ r, addError atom cur e = some r ∧ txDecision atom (addError atom cur e) = ["db.Rollback"] := by
+    ∃ r, hookAddError atom cur e = some r ∧ txDecision atom (hookAddError atom cur e) = ["db.Rollback"] := by
   obtain ⟨r, hr, _⟩ := C13_addError_keeps atom cur e htr
   exact ⟨r, hr, by rw [hr]; exact (C13_any_error_rolls_back atom r hskip hstarted).1⟩
 
